@@ -74,11 +74,34 @@ def closed(node):
     return all(isinstance(n, (ast.Constant, ast.BinOp, ast.UnaryOp, ast.operator, ast.unaryop, ast.Load, ast.expr_context)) for n in ast.walk(node))
 
 
+def too_expensive(node):
+    def const(n):
+        if isinstance(n, ast.UnaryOp):
+            return const(n.operand)
+        v = getattr(n, 'value', None)
+        return v if isinstance(v, (int, float)) and not isinstance(v, bool) else None
+    for n in ast.walk(node):
+        if isinstance(n, ast.BinOp) and isinstance(n.op, (ast.Pow, ast.LShift)):
+            r = n.right
+            while isinstance(r, ast.UnaryOp):
+                r = r.operand
+            rv = const(r)
+            if rv is None and isinstance(r, ast.BinOp) and isinstance(r.op, ast.Pow):
+                rv = 10 ** 9
+            if rv is not None and abs(rv) > 4096:
+                lv = const(n.left)
+                if lv is None or abs(lv) not in (0, 1):
+                    return True
+    return False
+
+
 def evaluate(node):
     from mc.core import time_limit, CaseTimeout
+    if too_expensive(node):
+        return ('too-expensive',)
     try:
         code = compile(ast.fix_missing_locations(ast.Expression(body=node)), '<fold>', 'eval')
-        with time_limit(5):      # an expression the folder left alone because it is astronomically expensive stands for itself on both sides
+        with time_limit(2):      # an expression the folder left alone because it is astronomically expensive stands for itself on both sides
             return describe(eval(code, {'__builtins__': {}}, {}))
     except CaseTimeout:
         return ('too-expensive',)
